@@ -289,7 +289,7 @@ func (c *Ctx) TagDispatch(pkgs ...string) []core.Ob {
 		// the flow graph, whatever the spelling (switch, if chain, range guard up front): with the
 		// parameter assumed to be a given tag id, every return reached after the first tag comparison
 		// must carry a definite error for ids nothing handles, and may succeed for the value tags.
-		if fn, param := c.dispatchParam(ts); fn != nil && full {
+		if fn, param := c.dispatchParam(ts); fn != nil && (full || isCodecMethod) {
 			outcome := func(v int64) (reached, allErr bool) {
 				entry := firstTagCompare(fn, param)
 				allErr = true
@@ -314,10 +314,44 @@ func (c *Ctx) TagDispatch(pkgs ...string) []core.Ob {
 			}
 			d := core.Ob{Rule: "T-DISPATCH", Key: key + ":unknown-tag-is-error", Pos: c.P.Pos(ts.pos), Func: ts.fn, Armed: true, Status: core.OK,
 				Want: "a tag id that no case handles leads to an error (a default clause that fails)"}
-			for _, v := range []int64{13, 100, 255} {
+			unknown := []int64{13, 100, 255}
+			if !full {
+				// a codec method that takes a few tags: every other id is unknown to it
+				// (the tags any dispatch of this function lists, or compares its parameter with, are its own)
+				handled := map[int64]bool{}
+				for _, other := range sws {
+					if other.fn == ts.fn {
+						for v := range other.cases {
+							handled[v] = true
+						}
+					}
+				}
+				for _, b := range fn.Blocks {
+					for _, in := range b.Instrs {
+						if bo, ok := in.(*ssa.BinOp); ok && (bo.X == ssa.Value(param) || bo.Y == ssa.Value(param)) {
+							if k, ok := constIntVal(bo.X); ok {
+								handled[k] = true
+							}
+							if k, ok := constIntVal(bo.Y); ok {
+								handled[k] = true
+							}
+						}
+					}
+				}
+				for v := int64(0); v <= 12; v++ {
+					if !handled[v] {
+						unknown = append(unknown, v)
+					}
+				}
+			}
+			for _, v := range unknown {
 				if reached, allErr := outcome(v); reached && !allErr {
 					d.Status, d.Got = core.Violated, fmt.Sprintf("with tag id %d a return that may carry a nil error is reachable: an unknown tag id is silently accepted", v)
 				}
+			}
+			if !full {
+				obs = append(obs, d)
+				continue
 			}
 			cov := core.Ob{Rule: "T-DISPATCH", Key: key + ":covers-all-tags", Pos: c.P.Pos(ts.pos), Func: ts.fn, Armed: true, Status: core.OK,
 				Want: "a full tag dispatch handles every value tag TagByte..TagLongArray (1..12)"}
